@@ -64,9 +64,17 @@ type recorder struct {
 	wakeSeq int
 	exited  bool
 
-	// connection numbering (must mirror Model/Loop.v: accept order)
-	nextCid int
-	fdCid   map[int]int
+	// connection numbering: gid = global identity of a connection in this case (harness bookkeeping,
+	// oracles); mcid = its number in the modelled loop (loop 0), mirroring Model/Loop.v's accept order,
+	// -1 for connections served by the other loops of a multi-loop engine (oracle-only)
+	nextCid  int // next model cid
+	nextGid  int
+	fdCid    map[int]int // fd -> gid
+	gidM     map[int]int // gid -> mcid
+	nloops   int
+	accCount int            // accepts seen on the acceptor thread (round-robin target = accCount % nloops)
+	otherG   map[int64]bool // goroutines of loops 1..n-1
+	idleG    map[int64]bool // loop goroutine -> inside a blocking epoll_wait
 
 	// descriptor ledger (C07): descriptors created by the framework and not yet closed
 	owned    map[int]string
@@ -92,7 +100,7 @@ type recorder struct {
 }
 
 func newRecorder() *recorder {
-	r := &recorder{fdCid: map[int]int{}, owned: map[int]string{}, delivered: map[int][]byte{},
+	r := &recorder{gidM: map[int]int{}, otherG: map[int64]bool{}, idleG: map[int64]bool{}, nloops: 1, fdCid: map[int]int{}, owned: map[int]string{}, delivered: map[int][]byte{},
 		handed: map[int]int{}, handedB: map[int][]byte{}, faulted: map[int]string{}, closing: map[int]bool{}, counters: map[string]int{}, canaries: map[int]*net.UDPConn{},
 		loopEpfd: -1, loopEfd: -1, accEpfd: -1}
 	r.cond = sync.NewCond(&r.mu)
@@ -200,6 +208,36 @@ func concatIov(iov [][]byte) []byte {
 	return b
 }
 
+// newConn registers a connection's descriptor (lock held): a fresh gid, and a model cid when the
+// connection belongs to the modelled loop
+func (r *recorder) newConn(fd int, modelled bool) int {
+	gid := r.nextGid
+	r.nextGid++
+	r.fdCid[fd] = gid
+	if modelled {
+		r.gidM[gid] = r.nextCid
+		r.nextCid++
+	} else {
+		r.gidM[gid] = -1
+	}
+	return gid
+}
+
+func (r *recorder) allIdle() bool {
+	if r.exited {
+		return true
+	}
+	if !r.idle {
+		return false
+	}
+	for g := range r.otherG {
+		if !r.idleG[g] {
+			return false
+		}
+	}
+	return true
+}
+
 func (r *recorder) onLoop(g int64) bool { return r.loopG != 0 && g == r.loopG }
 
 // ledger: is fd currently owned by the framework?
@@ -233,6 +271,16 @@ func (r *recorder) Before(c *vunix.Call) {
 			r.loopG = g
 		} else if c.Fd == r.accEpfd && r.accG == 0 {
 			r.accG = g
+		} else if c.Fd != r.loopEpfd && c.Fd != r.accEpfd && !r.otherG[g] {
+			for i, e := range r.epfds {
+				if e == c.Fd && i > 0 && i < r.nloops {
+					r.otherG[g] = true
+				}
+			}
+		}
+		if c.Arg < 0 && (g == r.loopG || r.otherG[g]) {
+			r.idleG[g] = true
+			r.cond.Broadcast()
 		}
 	}
 	// ---- descriptor ledger: every call names a descriptor the framework must own
@@ -242,6 +290,9 @@ func (r *recorder) Before(c *vunix.Call) {
 	case "epoll_ctl":
 		r.checkOwned(c, c.Fd, g)
 		r.checkOwned(c, c.Arg2, g)
+	}
+	if r.otherG[g] && c.Name == "epoll_wait" {
+		return
 	}
 	if !r.onLoop(g) || r.suppress {
 		return
@@ -312,7 +363,7 @@ func (r *recorder) maybeInject(c *vunix.Call, name string) {
 			if c.Name == "epoll_ctl" {
 				fd = c.Arg2
 			}
-			if cid, ok := r.fdCid[fd]; !ok || cid != in.cid {
+			if cid, ok := r.fdCid[fd]; !ok || r.gidM[cid] != in.cid {
 				continue
 			}
 		}
@@ -381,8 +432,8 @@ func (r *recorder) After(c *vunix.Call) {
 			r.efds = append(r.efds, c.Ret)
 			if len(r.efds) == 1 && len(r.epfds) >= 1 {
 				r.loopEpfd, r.loopEfd = r.epfds[0], r.efds[0]
-			} else if r.reactor && len(r.efds) == 2 && len(r.epfds) >= 2 {
-				r.accEpfd = r.epfds[1]
+			} else if r.reactor && len(r.efds) == r.nloops+1 && len(r.epfds) >= r.nloops+1 {
+				r.accEpfd = r.epfds[r.nloops]
 			}
 		}
 	case "socket":
@@ -399,9 +450,7 @@ func (r *recorder) After(c *vunix.Call) {
 			r.owned[c.Ret] = "dup"
 			if r.client && !r.onLoop(g) {
 				// Client.Dial/Enroll: the dup'ed socket travels to the loop in a register task
-				cid := r.nextCid
-				r.nextCid++
-				r.fdCid[c.Ret] = cid
+				r.newConn(c.Ret, true)
 				r.add("op", tr.L("dial", tr.I(c.Ret), tr.B(r.dialUDP)))
 			}
 		}
@@ -411,10 +460,45 @@ func (r *recorder) After(c *vunix.Call) {
 		}
 	}
 	if g == r.accG && (c.Name == "accept4" || c.Name == "accept") && c.Err == nil {
-		cid := r.nextCid
-		r.nextCid++
-		r.fdCid[c.Ret] = cid
-		r.add("op", tr.L("accepted", tr.I(c.Ret)))
+		// the main reactor hands the socket to loop accCount % nloops (round-robin)
+		mine := r.accCount%r.nloops == 0
+		r.accCount++
+		r.newConn(c.Ret, mine)
+		if mine {
+			r.add("op", tr.L("accepted", tr.I(c.Ret)))
+		}
+		return
+	}
+	if r.otherG[g] {
+		// a loop that is not modelled: only the ground truth for the oracles
+		switch c.Name {
+		case "epoll_wait":
+			r.idleG[g] = false
+			if c.Ret > 0 {
+				r.wakeSeq++
+			}
+		case "accept4", "accept":
+			if c.Err == nil {
+				r.newConn(c.Ret, false)
+			}
+		case "read":
+			if c.Err == nil && c.Ret > 0 {
+				if gid, ok := r.fdCid[c.Fd]; ok {
+					r.delivered[gid] = append(r.delivered[gid], c.Buf[:c.Ret]...)
+				}
+			}
+		case "write", "writev":
+			if c.Err == nil && c.Ret > 0 {
+				off := c.Buf
+				if c.Name == "writev" {
+					off = concatIov(c.Iov)
+				}
+				if gid, ok := r.fdCid[c.Fd]; ok {
+					r.handed[gid] += c.Ret
+					r.handedB[gid] = append(r.handedB[gid], off[:c.Ret]...)
+				}
+			}
+		}
 		return
 	}
 	if !r.onLoop(g) || r.suppress {
@@ -430,6 +514,7 @@ func (r *recorder) After(c *vunix.Call) {
 	switch c.Name {
 	case "epoll_wait":
 		r.idle = false
+		r.idleG[g] = false
 		if c.Ret > 0 {
 			r.wakeSeq++
 			args := []string{}
@@ -474,9 +559,7 @@ func (r *recorder) After(c *vunix.Call) {
 		ret("epctl", 0, c.Err)
 	case "accept4", "accept":
 		if c.Err == nil {
-			cid := r.nextCid
-			r.nextCid++
-			r.fdCid[c.Ret] = cid
+			r.newConn(c.Ret, true)
 		}
 		ret("accept", c.Ret, c.Err)
 	case "recvfrom":
@@ -497,12 +580,12 @@ func (r *recorder) waitQuiet(settle, max time.Duration) bool {
 	for {
 		r.mu.Lock()
 		seq := r.wakeSeq
-		idle := r.idle || r.exited
+		idle := r.allIdle()
 		r.mu.Unlock()
 		if idle {
 			time.Sleep(settle)
 			r.mu.Lock()
-			ok := (r.idle || r.exited) && r.wakeSeq == seq
+			ok := r.allIdle() && r.wakeSeq == seq
 			r.mu.Unlock()
 			if ok {
 				return true
